@@ -144,3 +144,15 @@ CHECKS["C03"] = dict(
     note=("Bounds: 3 classes, 1-3 methods, 0-2 positionals (3 thorough), keywords {k, j}; 1500 sampled sets quick / 12000 thorough. The signature-set and "
           "call-shape quantifiers are enumerated, not symbolic. Defect fixed: 2885376 (keywords dropped). Recorded finding: C03-empty-call."),
 )
+
+CHECKS["C15"] = dict(
+    engine="symx", category="model_checking", design_ref="DESIGN.md §6 C15",
+    technique="symbolic execution of the real normalisation + dispatch for two spellings of one annotation over a symbolic hierarchy and priorities (z3); differential oracle between the two functions under the same model",
+    text=("For each listed pair of equivalent spellings (typing.Union / | / tuple / member reorderings, Optional / | None, missing / Any / object, "
+          "Annotated, string annotations, list[A] / typing.List[A], Literal value reorderings) and each surrounding method set, two functions are built "
+          "and probed with the same arguments once per class of (hierarchy, priorities); every probe must have the same outcome. The pair and surround "
+          "enumeration is exhaustive within the listed universe and the solver exhausts each pair's hierarchy/priority space."),
+    note=("Bounds: 3 classes, 26 spelling pairs x 12 surrounding sets, probes = instances, object(), None, small corpora of lists / literal values. "
+          "Differences explained by the recorded C06-asymmetric-typeorder mechanism (an applicable pair of registered types with non-mirror typeorder in "
+          "BOTH functions) are excused per probe. Defect fixed: 47abe4c (Literal bound from first value)."),
+)
